@@ -44,6 +44,12 @@ pub fn write(v: &Vehicle) -> Option<Vec<u8>> {
     guard(|| { let mut c = Cursor::new(Vec::new()); v.write_le(&mut c).ok().map(|_| c.into_inner()) }).flatten()
 }
 
+/// the InSim v9 rule, independent of the implementation
+pub fn rule(b: [u8; 4]) -> R {
+    if b == [0; 4] { R::U }
+    else if shape(b) { let name = std::str::from_utf8(&b[..3]).unwrap(); match CARS.iter().position(|c| *c == name) { Some(i) => R::B(i), None => R::E } }
+    else { R::M(u32::from_le_bytes(b)) }
+}
 fn shape(b: [u8; 4]) -> bool { b[..3].iter().all(|c| c.is_ascii_alphanumeric()) && b[3] == 0 }
 
 /// the property, evaluated on the implementation for one 4-byte value; None = holds
@@ -69,10 +75,69 @@ pub fn oracle(b: [u8; 4]) -> Option<String> {
     None
 }
 
+/// the v9 rule where the identifier travels (car-name fields of every packet kind, IS_MAL entries); shared with C02
+pub fn packet_sweep(prop: &str, a: &Args, st: &mut Stats) {
+    let mut rng = Rng::new(a.seed ^ 0xC13);
+    // the same rule where the identifier travels: every car-name field of every packet kind (fixed part and array elements).  A frame
+    // whose identifier the rule rejects must be a decode error; otherwise the frame decodes, shows the car the rule names and
+    // re-encodes to the identical bytes
+    {
+        use crate::{gen::layouts::KINDS, layout::{gen_frame, width, fixed_width, Atom, Tail, Custom}, wire::{decode_buf, encode_p, Dec, Enc}};
+        let mut samples: Vec<[u8; 4]> = vec![[0; 4]];
+        for c in CARS.iter() { let b = c.as_bytes(); samples.push([b[0], b[1], b[2], 0]); samples.push([b[0].to_ascii_lowercase(), b[1], b[2], 0]); samples.push([b[0], b[1], b[2], 1]); }
+        for s in ["XYZ", "FO9", "000", "aB1", "ZZZ", "xfg", "A1b", "UF2", "[F1", "XF`"] { let b = s.as_bytes(); samples.push([b[0], b[1], b[2], 0]); }
+        for _ in 0..40 { let r = rng.bytes(4); samples.push([r[0], r[1], r[2], r[3] | 1]); let r = rng.bytes(3); samples.push([b'0' + r[0] % 10, b'A' + r[1] % 26, b'a' + r[2] % 26, 0]); }
+        let mut nslots = 0u64;
+        for compressed in [true, false] { for k in KINDS.iter() {
+            let Some((f, _)) = gen_frame(&mut rng, k, compressed, 0, Some(2)) else { continue };
+            let mut slots: Vec<(usize, String)> = vec![]; let mut off = 2;
+            for (name, at) in k.fixed { if matches!(at, Atom::Custom(Custom::Vehicle, _)) { slots.push((off, name.to_string())); } off += width(at); }
+            if let Tail::Vec { elt, .. } = k.tail { let ew = fixed_width(elt); let mut eo = 0; for (name, at) in elt { if matches!(at, Atom::Custom(Custom::Vehicle, _)) { for e in 0..2 { slots.push((2 + fixed_width(k.fixed) + e * ew + eo, format!("[{e}].{name}"))); } } eo += width(at); } }
+            for (o, name) in slots { if o + 4 > f.len() { continue; } nslots += 1;
+                for b in samples.iter() {
+                    let mut g = f.clone(); g[o..o + 4].copy_from_slice(b); st.evaluations += 1;
+                    let id = format!("vframe {} {o} {}", if compressed { "C" } else { "U" }, hex(&g));
+                    let want = rule(*b);
+                    match decode_buf(compressed, &g) {
+                        Dec::Got(p, _) => {
+                            if want == R::E { st.fail(format!("[{prop}] {}.{name}: the unrecognised built-in-style name {} is accepted inside a packet: {}", k.name, hex(b), format!("{:?}", p).chars().take(100).collect::<String>()), id.clone()); }
+                            match encode_p(compressed, &p) { Enc::Ok(e) if e == g => {}, Enc::Ok(e) => st.fail(format!("[{prop}] {}.{name}: identifier {} re-encodes as {}", k.name, hex(b), hex(&e[o..(o + 4).min(e.len())])), id.clone()), _ => st.fail(format!("[{prop}] {}.{name}: the decoded packet does not encode", k.name), id.clone()) }
+                        },
+                        Dec::Bad(_) => if want != R::E { st.fail(format!("[{prop}] {}.{name}: identifier {} ({}) makes the packet undecodable", k.name, hex(b), want.show()), id.clone()); },
+                        d => st.fail(format!("[{prop}] {}.{name}: decoder outcome {}", k.name, crate::wire::cls_string(&d)), id.clone()),
+                    }
+                }
+            }
+        } }
+        st.notes.push(format!("car-name fields inside packets: {nslots} (kinds x fields x modes), {} identifiers each", samples.len()));
+        // IS_MAL (mods allowed): its entries are mod ids WHATEVER they look like - a frame listing ids that spell a car name, look like an
+        // unknown car name or are zero decodes, contains exactly those ids as mods, and re-encodes identically
+        for compressed in [true, false] { for chunk in samples.chunks(7) {
+            let mut ids: Vec<[u8; 4]> = vec![]; for b in chunk { if !ids.contains(b) { ids.push(*b); } }
+            let mut f = vec![0u8, 65, 3, ids.len() as u8, 12, 0, 0, 0]; for b in &ids { f.extend_from_slice(b); }
+            f[0] = if compressed { (f.len() / 4) as u8 } else { f.len() as u8 };
+            st.evaluations += 1;
+            let id = format!("malframe {} {}", if compressed { "C" } else { "U" }, hex(&f));
+            match decode_buf(compressed, &f) {
+                Dec::Got(insim::Packet::Mal(m), _) => {
+                    for b in &ids { let v = Vehicle::Mod(u32::from_le_bytes(*b)); if !m.contains(&v) { st.fail(format!("[{prop}] IS_MAL: the listed mod id {} is not reported as an allowed mod ({:?})", hex(b), m.iter().take(8).collect::<Vec<_>>()), id.clone()); break; } }
+                    if m.len() != ids.len() || m.iter().any(|v| !v.is_mod()) { st.fail(format!("[{prop}] IS_MAL: {} ids listed, decoded set {:?}", ids.len(), m.iter().take(8).collect::<Vec<_>>()), id.clone()); }
+                    match encode_p(compressed, &insim::Packet::Mal(m)) { Enc::Ok(e) if e == f => {}, _ => st.fail(format!("[{prop}] IS_MAL does not re-encode to the identical bytes"), id.clone()) }
+                },
+                d => st.fail(format!("[{prop}] IS_MAL listing mod ids {} is not decoded: {}", ids.iter().map(|b| hex(b)).collect::<Vec<_>>().join(" "), crate::wire::cls_string(&d)), id.clone()),
+            }
+        } }
+    }
+}
+
 pub fn run(a: &Args) {
+    if let Some(r) = &a.replay { if let Some(rest) = r.strip_prefix("malframe ") {
+        let t: Vec<&str> = rest.split_whitespace().collect(); let compressed = t[0] == "C"; let f = unhex(t[1]);
+        let ok = match crate::wire::decode_buf(compressed, &f) { crate::wire::Dec::Got(insim::Packet::Mal(m), _) => { let n = f[3] as usize; let all = (0..n).all(|i| m.contains(&Vehicle::Mod(u32::from_le_bytes([f[8 + 4 * i], f[9 + 4 * i], f[10 + 4 * i], f[11 + 4 * i]])))); let same = matches!(crate::wire::encode_p(compressed, &insim::Packet::Mal(m.clone())), crate::wire::Enc::Ok(e) if e == f); println!("decoded {} entries, all listed ids present as mods: {all}, identical re-encoding: {same}", m.len()); all && same && m.len() == n }, d => { println!("decoder outcome {}", crate::wire::cls_string(&d)); false } };
+        if ok { println!("PASS"); std::process::exit(0) } else { println!("FAIL [C13] IS_MAL entries are not treated as mod ids"); std::process::exit(1) } } }
     if let Some(r) = &a.replay { if let Some(rest) = r.strip_prefix("vframe ") {
         let t: Vec<&str> = rest.split_whitespace().collect(); let compressed = t[0] == "C"; let o: usize = t[1].parse().unwrap(); let g = unhex(t[2]);
-        let b = [g[o], g[o + 1], g[o + 2], g[o + 3]]; let (want, _) = read(b);
+        let b = [g[o], g[o + 1], g[o + 2], g[o + 3]]; let want = rule(b);
         let ok = match crate::wire::decode_buf(compressed, &g) {
             crate::wire::Dec::Got(p, _) => { let same = matches!(crate::wire::encode_p(compressed, &p), crate::wire::Enc::Ok(e) if e == g); println!("identifier {} ({}): the packet decodes to {} and re-encodes {}", hex(&b), want.show(), format!("{:?}", p).chars().take(120).collect::<String>(), if same { "identically" } else { "differently" }); want != R::E && same },
             crate::wire::Dec::Bad(_) => { println!("identifier {} ({}): the packet is a decode error", hex(&b), want.show()); want == R::E },
@@ -129,39 +194,7 @@ pub fn run(a: &Args) {
         for h in handles { let (n, fails) = h.join().unwrap(); st.evaluations += n; st.add("sweep32", n); for (w, i) in fails { st.fail(w, i); } }
         st.exhaustive.push("all 2^32 wire values (implementation oracle)".into());
     }
-    // the same rule where the identifier travels: every car-name field of every packet kind (fixed part and array elements).  A frame
-    // whose identifier the rule rejects must be a decode error; otherwise the frame decodes, shows the car the rule names and
-    // re-encodes to the identical bytes
-    {
-        use crate::{gen::layouts::KINDS, layout::{gen_frame, width, fixed_width, Atom, Tail, Custom}, wire::{decode_buf, encode_p, Dec, Enc}};
-        let mut samples: Vec<[u8; 4]> = vec![[0; 4]];
-        for c in CARS.iter() { let b = c.as_bytes(); samples.push([b[0], b[1], b[2], 0]); samples.push([b[0].to_ascii_lowercase(), b[1], b[2], 0]); samples.push([b[0], b[1], b[2], 1]); }
-        for s in ["XYZ", "FO9", "000", "aB1", "ZZZ", "xfg", "A1b", "UF2", "[F1", "XF`"] { let b = s.as_bytes(); samples.push([b[0], b[1], b[2], 0]); }
-        for _ in 0..40 { let r = rng.bytes(4); samples.push([r[0], r[1], r[2], r[3] | 1]); let r = rng.bytes(3); samples.push([b'0' + r[0] % 10, b'A' + r[1] % 26, b'a' + r[2] % 26, 0]); }
-        let mut nslots = 0u64;
-        for compressed in [true, false] { for k in KINDS.iter() {
-            let Some((f, _)) = gen_frame(&mut rng, k, compressed, 0, Some(2)) else { continue };
-            let mut slots: Vec<(usize, String)> = vec![]; let mut off = 2;
-            for (name, at) in k.fixed { if matches!(at, Atom::Custom(Custom::Vehicle, _)) { slots.push((off, name.to_string())); } off += width(at); }
-            if let Tail::Vec { elt, .. } = k.tail { let ew = fixed_width(elt); let mut eo = 0; for (name, at) in elt { if matches!(at, Atom::Custom(Custom::Vehicle, _)) { for e in 0..2 { slots.push((2 + fixed_width(k.fixed) + e * ew + eo, format!("[{e}].{name}"))); } } eo += width(at); } }
-            for (o, name) in slots { if o + 4 > f.len() { continue; } nslots += 1;
-                for b in samples.iter() {
-                    let mut g = f.clone(); g[o..o + 4].copy_from_slice(b); st.evaluations += 1;
-                    let id = format!("vframe {} {o} {}", if compressed { "C" } else { "U" }, hex(&g));
-                    let (want, _) = read(*b);
-                    match decode_buf(compressed, &g) {
-                        Dec::Got(p, _) => {
-                            if want == R::E { st.fail(format!("[C13] {}.{name}: the unrecognised built-in-style name {} is accepted inside a packet: {}", k.name, hex(b), format!("{:?}", p).chars().take(100).collect::<String>()), id.clone()); }
-                            match encode_p(compressed, &p) { Enc::Ok(e) if e == g => {}, Enc::Ok(e) => st.fail(format!("[C13] {}.{name}: identifier {} re-encodes as {}", k.name, hex(b), hex(&e[o..(o + 4).min(e.len())])), id.clone()), _ => st.fail(format!("[C13] {}.{name}: the decoded packet does not encode", k.name), id.clone()) }
-                        },
-                        Dec::Bad(_) => if want != R::E { st.fail(format!("[C13] {}.{name}: identifier {} ({}) makes the packet undecodable", k.name, hex(b), want.show()), id.clone()); },
-                        d => st.fail(format!("[C13] {}.{name}: decoder outcome {}", k.name, crate::wire::cls_string(&d)), id.clone()),
-                    }
-                }
-            }
-        } }
-        st.notes.push(format!("car-name fields inside packets: {nslots} (kinds x fields x modes), {} identifiers each", samples.len()));
-    }
+    packet_sweep("C13", a, &mut st);
     st.distinct_nontrivial = nontrivial;
     st.rule = "4-byte values: all 62^3 alnum names + 17^4 boundary grid + every single-byte neighbour of each built-in name + seeded random words; distinct inputs counted, non-trivial = last byte 0 (zero / built-in-shaped / near-shaped), i.e. not a plain mod id".into();
     for s in ["58464700", "00000000", "41414100", "01020304", "58525401"] { let b = unhex(s); st.sample(format!("{} -> {}", s, read([b[0], b[1], b[2], b[3]]).0.show())); }
